@@ -339,6 +339,8 @@ class FakeB2(_Service):
             return 'list_file_names'
         if path.endswith('/b2_hide_file'):
             return 'hide_file'
+        if path.endswith('/b2_delete_file_version'):
+            return 'delete_file_version'
         if path.startswith('/b2api/v2/b2_upload_file/'):
             return 'upload'
         if path.startswith('/file/'):
@@ -379,9 +381,11 @@ class FakeB2(_Service):
             sha1 = request.headers.get('x-bz-content-sha1', '')
             if sha1 not in ('do_not_verify',) and sha1 != hashlib.sha1(body).hexdigest():
                 return self._json(400, {'status': 400, 'code': 'bad_request', 'message': 'sha1 mismatch'})
-            self.versions.setdefault(name, []).append(('upload', body))
+            self.nfid = getattr(self, 'nfid', 0) + 1
+            fid = f'4_z{self.nfid:08d}'
+            self.versions.setdefault(name, []).append(('upload', body, fid))
             self.journal.append(('put', name, len(body)))
-            return self._json(200, {'fileName': name, 'contentLength': len(body), 'action': 'upload'})
+            return self._json(200, {'fileName': name, 'fileId': fid, 'contentLength': len(body), 'action': 'upload'})
         if not self._auth_ok(request):
             self.count('unauthorized')
             return self._json(401, {'status': 401, 'code': 'expired_auth_token', 'message': 'token expired'})
@@ -404,6 +408,18 @@ class FakeB2(_Service):
         if op == 'list_buckets':
             return self._json(200, {'buckets': [{'accountId': self.account_id, 'bucketId': 'other-id', 'bucketName': 'some-other-bucket'},
                                                 {'accountId': self.account_id, 'bucketId': self.bucket_id, 'bucketName': self.bucket_name}]})
+        if op == 'delete_file_version':
+            # removes exactly one stored version; an older version of the name becomes the current one
+            name, fid = req.get('fileName'), req.get('fileId')
+            v = self.versions.get(name) or []
+            for i, ver in enumerate(v):
+                if ver[2] == fid:
+                    was_current = (i == len(v) - 1)
+                    del v[i]
+                    if was_current:
+                        self.journal.append(('delete-version', name, None))
+                    return self._json(200, {'fileName': name, 'fileId': fid})
+            return self._json(400, {'status': 400, 'code': 'file_not_present', 'message': 'file not present'})
         if req.get('bucketId') != self.bucket_id:
             return self._json(400, {'status': 400, 'code': 'bad_bucket_id', 'message': 'no such bucket'})
         if op == 'get_upload_url':
@@ -421,7 +437,8 @@ class FakeB2(_Service):
                 names = [n for n in names if n.encode('utf-8') >= start.encode('utf-8')]
             page, rest = names[:maxn], names[maxn:]
             self.count('list-page')
-            return self._json(200, {'files': [{'fileName': n, 'action': 'upload', 'contentLength': len(self.objects[n])} for n in page],
+            return self._json(200, {'files': [{'fileName': n, 'fileId': self.versions[n][-1][2], 'action': 'upload',
+                                               'contentLength': len(self.objects[n])} for n in page],
                                     'nextFileName': rest[0] if rest else None})
         if op == 'hide_file':
             name = req.get('fileName')
@@ -430,9 +447,10 @@ class FakeB2(_Service):
                 return self._json(400, {'status': 400, 'code': 'no_such_file', 'message': 'no such file'})
             if v[-1][0] == 'hide':
                 return self._json(400, {'status': 400, 'code': 'already_hidden', 'message': 'already hidden'})
-            v.append(('hide',))
+            self.nfid = getattr(self, 'nfid', 0) + 1
+            v.append(('hide', None, f'4_z{self.nfid:08d}'))
             self.journal.append(('delete', name, None))
-            return self._json(200, {'fileName': name, 'action': 'hide'})
+            return self._json(200, {'fileName': name, 'fileId': v[-1][2], 'action': 'hide'})
         return self._json(400, {'status': 400, 'code': 'bad_request', 'message': 'unknown call'})
 
     async def handle_async_request(self, request):
